@@ -337,7 +337,7 @@ def shard(ctx, shard_no, nshards, n_expr, n_prop):
 
 def shard_small(ctx, shard_no, nshards, stride):
     with ctx.timed('small'):
-        for name, inp in sem.small_cases(ctx.seed, stride, shard_no, nshards, boolean_only=False):
+        for name, inp in sem.small_cases(ctx.seed, stride, shard_no, nshards, boolean_only=False, quant_stride=max(1, stride // 8)):
             try:
                 a = sub_expr(inp)
             except Violation as v:
